@@ -343,8 +343,13 @@ def generate(rng, index, tier):
 
     def add_ll(h, shared=False):
         times, obs = [], []
-        for _ in range(n_out):
+        # (an individual may lack measurements of one output altogether)
+        empty = rng.randrange(n_out) if n_out > 1 and rng.random() < 0.2 \
+            else None
+        for j_ in range(n_out):
             ts = sorted(rng.sample(grid, rng.randint(1, len(grid))))
+            if j_ == empty:
+                ts = []
             times.append(ts)
             obs.append(_vals(rng, len(ts), 0.1, 2.0))
         recipes.append({'h': h, 'kind': 'loglik', 'mech': 'm',
